@@ -1,6 +1,7 @@
 /* C08 API-level completion: every public submitter of pool work, through its own completion
  * wrapper, on request memory pre-filled with a byte, in three fates.
- *   case:  <api> <fill 0..255> <run|cancel|busy> [expected work result, ignored here]
+ *   case:  <api> <fill 0..255> <run|cancel|busy> <expected work result, ignored here> [pool size, default 1;
+ *          sizes above 1 only with fate run]
  *   api:   work (uv_queue_work with after_work_cb), work0 (after_work_cb == NULL), rnd (uv_random),
  *          fs_stat fs_missing fs_access fs_scandir fs_realpath fs_lstat, gai (uv_getaddrinfo numeric),
  *          gni (uv_getnameinfo numeric)
@@ -79,9 +80,12 @@ static void run_case(char* line) {
   const char* dir = getenv("C08_SCRATCH_DIR");
   any_req* x;
   uv_work_t blk, sent, reach;
-  if (sscanf(line, "%31s %d %15s", api, &fill, fate) != 3) { printf("bad\n"); return; }
+  int wres_ignored, size = 1, nf; char num[8];
+  nf = sscanf(line, "%31s %d %15s %d %d", api, &fill, fate, &wres_ignored, &size);
+  if (nf < 3 || size < 1 || size > 8 || (size > 1 && strcmp(fate, "run"))) { printf("bad\n"); return; }
   if (dir == NULL) dir = "/";
-  setenv("UV_THREADPOOL_SIZE", "1", 1);
+  snprintf(num, sizeof num, "%d", size);
+  setenv("UV_THREADPOOL_SIZE", num, 1);
   setenv("UV_USE_IO_URING", "0", 1);
   if (uv_loop_init(&loop) || uv_sem_init(&blk_started, 0) || uv_sem_init(&blk_go, 0) ||
       uv_sem_init(&x_started, 0) || uv_sem_init(&x_go, 0) || uv_sem_init(&reached, 0)) { printf("initfail\n"); return; }
@@ -115,6 +119,11 @@ static void run_case(char* line) {
   if (sub != 0) { printf("sub=%d\n", sub); return; }
   if (uv_queue_work(&loop, &sent, sentinel_work, sentinel_after)) { printf("initfail\n"); return; }
   while (!sentinel_done) { uv_run(&loop, UV_RUN_NOWAIT); if (!sentinel_done) sched_yield(); }
+  if (size > 1) {
+    /* several threads: the sentinel may overtake x; give x up to 10 s (only a lost request waits that long) */
+    int i;
+    for (i = 0; i < 10000 && loop.active_reqs.count != 0 && cbs == 0; i++) { uv_run(&loop, UV_RUN_NOWAIT); usleep(1000); }
+  }
   r = uv_run(&loop, UV_RUN_NOWAIT);
   after = loop.active_reqs.count;
   cl = uv_loop_close(&loop);
